@@ -208,8 +208,8 @@ def mistake_check(case):
 
 
 PARTS = {
-    "fund": {"check": fund_check, "strategy": fund_cases, "budget": {"quick": 1200, "thorough": 30000}},
-    "mistake": {"check": mistake_check, "strategy": mistake_cases, "budget": {"quick": 1200, "thorough": 30000}},
+    "fund": {"check": fund_check, "strategy": fund_cases, "budget": {"quick": 2400, "thorough": 30000}},
+    "mistake": {"check": mistake_check, "strategy": mistake_cases, "budget": {"quick": 2400, "thorough": 30000}},
 }
 
 
